@@ -243,6 +243,9 @@ class StackWorld(object):
       REC.violation('C11', 'reserved_or_out_of_range_tag',
                     'request %s on conn %s carries tag %d' % (r.call_id, conn.id, tag),
                     {'tag': tag if tag < 2 else 'big'})
+    if tag in st['unanswered'] and srv.adversarial_hit(st['unanswered'][tag]):
+      st['unanswered'][tag].reply_kind = 'adversarial'
+      del st['unanswered'][tag]
     if tag in st['unanswered']:
       other = st['unanswered'][tag]
       REC.violation('C11', 'duplicate_tag',
@@ -493,6 +496,8 @@ class StackWorld(object):
       rs = seen.get(c.id, [])
       r = rs[0] if rs else None
       K = r.reply_kind if r is not None else None
+      if r is not None and r.tag is not None and srv.adversarial_hit(r):
+        K = 'adversarial'
       if kind == 'value':
         o = 'value'
       else:
